@@ -282,6 +282,7 @@ def gen_proxy(rng, tier):
     main.append(["exec", "c0", 1, gwi])
     obs = {"side": "i", "gw": gwi, "chan": "c0",
            "ops": [["drain", "c0"], ["send", "c0", "probe0", ["none"]], ["recv", "c0"], ["gwjoin", 5.0], ["hasreceiver"],
+                   ["waitclose", "c0", 5.0],
                    ["send", "c0", "probe", ["none"]], ["newchan", "zz"], ["exec_src", "zz2", "pass", gwi]]}
     actors.append(obs)
     main += [["spawn", 2], ["join", 2, 300.0]]
